@@ -197,37 +197,37 @@ theorem crack_recovers_parent_ec (C : Curve) (D : EnvData) (B : Bounds (ecEnv C 
     crackCore (ecEnv C D) { x with version := v, key := pubOfPrv (ecEnv C D) x.prvInt } y = .ok x :=
   crackCore_ckdPriv B hv v i hi hc
 
-/-! ## secp256k1 (the driver's `secpEnv mac`): primality of `p` and `n` are the only assumptions -/
+/-! ## secp256k1 (the driver's `secpEnv mac`): no assumption on the curve (primality of `p`, `n`: Pratt certificates) -/
 
 /-- `secpEnv mac` with `secpOps` for `Btc.EC.ops secp256k1` -/
-noncomputable def secpSubEnv (hp : Nat.Prime secp256k1_p) (hn : Nat.Prime secp256k1_n)
-    (mac : Bytes → Bytes → Bytes := hmacSha512) : Env (SecpPt hp) :=
-  @subEnv secp256k1_p ⟨hp⟩ secp256k1 (secpOk hp hn) (secpData mac)
+noncomputable def secpSubEnv
+    (mac : Bytes → Bytes → Bytes := hmacSha512) : Env SecpPt :=
+  @subEnv secp256k1_p ⟨secp256k1_p_prime⟩ secp256k1 secpOk (secpData mac)
 
-theorem neuter_derive_secp256k1 (hp : Nat.Prime secp256k1_p) (hn : Nat.Prime secp256k1_n)
+theorem neuter_derive_secp256k1
     (mac : Bytes → Bytes → Bytes) (x : XKey) (v : Bytes) (p' : List ℕ)
     (hv : ValidPrv (secpEnv mac) x) (hver : Gen.Bip32.pubVersion x.version = some v)
     (hp' : ∀ i ∈ p', i < HARDENED) :
-    ((deriveFold (secpSubEnv hp hn mac) x p').mapError Err.toPub).bind (neuter (secpSubEnv hp hn mac)) =
-      (neuter (secpSubEnv hp hn mac) x).bind fun x' => deriveFold (secpSubEnv hp hn mac) x' p' :=
-  @neuter_derive_ec secp256k1_p ⟨hp⟩ secp256k1 (secpOk hp hn) (secpData mac) secp256k1_h34 (secp_bounds mac) x v p'
+    ((deriveFold (secpSubEnv mac) x p').mapError Err.toPub).bind (neuter (secpSubEnv mac)) =
+      (neuter (secpSubEnv mac) x).bind fun x' => deriveFold (secpSubEnv mac) x' p' :=
+  @neuter_derive_ec secp256k1_p ⟨secp256k1_p_prime⟩ secp256k1 secpOk (secpData mac) secp256k1_h34 (secp_bounds mac) x v p'
     hv hver hp'
 
-theorem neuter_derive_raw_secp256k1 (hp : Nat.Prime secp256k1_p) (hn : Nat.Prime secp256k1_n)
+theorem neuter_derive_raw_secp256k1
     (mac : Bytes → Bytes → Bytes) (x : XKey) (v : Bytes) (p' : List ℕ)
     (hv : ValidPrv (secpEnv mac) x) (hver : Gen.Bip32.pubVersion x.version = some v)
     (hp' : ∀ i ∈ p', i < HARDENED)
     (y' : XKey) (hy : (deriveFold (secpEnv mac) x p').bind (neuter (secpEnv mac)) = .ok y') :
     neuter (secpEnv mac) x = .ok { x with version := v, key := pubOfPrv (secpEnv mac) x.prvInt } ∧
     deriveFold (secpEnv mac) { x with version := v, key := pubOfPrv (secpEnv mac) x.prvInt } p' = .ok y' :=
-  @neuter_derive_raw_ec secp256k1_p ⟨hp⟩ secp256k1 (secpOk hp hn) (secpData mac) secp256k1_h34 (secp_bounds mac) x v
+  @neuter_derive_raw_ec secp256k1_p ⟨secp256k1_p_prime⟩ secp256k1 secpOk (secpData mac) secp256k1_h34 (secp_bounds mac) x v
     p' hv hver hp' y' hy
 
-theorem deriveB_eq_fold_secp256k1 (hp : Nat.Prime secp256k1_p) (hn : Nat.Prime secp256k1_n)
+theorem deriveB_eq_fold_secp256k1
     (mac : Bytes → Bytes → Bytes) (x : XKey) (p' : List ℕ)
     (hk : x.isPrivate = true ∨ ∀ i ∈ p', i < HARDENED) (hd : x.depth + p'.length ≤ MAX_DEPTH) :
-    deriveB (secpSubEnv hp hn mac) x p' none = deriveFold (secpSubEnv hp hn mac) x p' :=
-  @deriveB_eq_fold_ec secp256k1_p ⟨hp⟩ secp256k1 (secpOk hp hn) (secpData mac) secp256k1_h34 (secp_bounds mac) x p'
+    deriveB (secpSubEnv mac) x p' none = deriveFold (secpSubEnv mac) x p' :=
+  @deriveB_eq_fold_ec secp256k1_p ⟨secp256k1_p_prime⟩ secp256k1 secpOk (secpData mac) secp256k1_h34 (secp_bounds mac) x p'
     hk hd
 
 /-! ## the toy curve: nothing assumed -/
